@@ -148,4 +148,125 @@ theorem parseTimeout_strict (s : Str) (h : strictTimeout s = true) : (parseTimeo
         | some n => simp
   · cases h
 
+/-! ### the event body: what the model writes (`str(value)`) reads back as the value -/
+
+theorem digitChar_spec : ∀ d, d < 10 → isDigit (digitChar d) = true ∧ digitVal (digitChar d) = d := by decide
+
+def digStep (a : Nat) (c : Char) : Nat := a * 10 + digitVal c
+
+theorem digitsVal_value : ∀ (ds : Str) (acc : Nat) (b : Bool), ds.all isDigit = true → (ds ≠ [] ∨ b = true) →
+    digitsVal acc b ds = some (ds.foldl digStep acc) := by
+  intro ds
+  induction ds with
+  | nil =>
+    intro acc b _ hb
+    rcases hb with hb | hb
+    · exact absurd rfl hb
+    · subst hb; simp [digitsVal]
+  | cons d ds ih =>
+    intro acc b h _
+    simp only [List.all_cons, Bool.and_eq_true] at h
+    unfold digitsVal
+    rw [if_pos h.1]
+    exact ih _ true h.2 (Or.inr rfl)
+
+theorem natDigits_spec : ∀ (fuel n : Nat), n < fuel →
+    (natDigits fuel n).all isDigit = true ∧ natDigits fuel n ≠ [] ∧ (natDigits fuel n).foldl digStep 0 = n := by
+  intro fuel
+  induction fuel with
+  | zero => intro n h; omega
+  | succ fuel ih =>
+    intro n h
+    unfold natDigits
+    by_cases hn : n < 10
+    · rw [if_pos hn]
+      obtain ⟨h1, h2⟩ := digitChar_spec n hn
+      refine ⟨by simp [h1], by simp, ?_⟩
+      simp [digStep, h2]
+    · rw [if_neg hn]
+      have hlt : n / 10 < fuel := by omega
+      obtain ⟨a1, a2, a3⟩ := ih (n / 10) hlt
+      obtain ⟨h1, h2⟩ := digitChar_spec (n % 10) (Nat.mod_lt _ (by omega))
+      refine ⟨by simp [List.all_append, a1, h1], by simp, ?_⟩
+      rw [List.foldl_append, a3]
+      simp only [List.foldl_cons, List.foldl_nil, digStep, h2]
+      omega
+
+theorem natText_spec (n : Nat) :
+    (natText n).all isDigit = true ∧ natText n ≠ [] ∧ digitsVal 0 false (natText n) = some n := by
+  obtain ⟨a1, a2, a3⟩ := natDigits_spec (n + 1) n (Nat.lt_succ_self n)
+  refine ⟨a1, a2, ?_⟩
+  unfold natText
+  rw [digitsVal_value _ 0 false a1 (Or.inl a2), a3]
+
+theorem stripSpace_ends (l : Str) (c : Char) (r : Str) (hl : l = c :: r) (hc : isPySpace c = false)
+    (hlast : ∀ e es, l.reverse = e :: es → isPySpace e = false) : stripSpace l = l := by
+  unfold stripSpace
+  subst hl
+  rw [dropWhile_head_false _ _ _ hc]
+  cases hrev : (c :: r).reverse with
+  | nil => simp at hrev
+  | cons e es =>
+    rw [dropWhile_head_false _ _ _ (hlast e es hrev), ← hrev, List.reverse_reverse]
+
+theorem pyInt_intText (n : Int) : pyInt (intText n) = some n := by
+  cases n with
+  | ofNat k =>
+    obtain ⟨a1, a2, a3⟩ := natText_spec k
+    show pyInt (natText k) = _
+    unfold pyInt
+    rw [stripSpace_digits _ a1]
+    cases hk : natText k with
+    | nil => exact absurd hk a2
+    | cons d ds =>
+      rw [hk] at a1 a3
+      have hd : isDigit d = true := by simp only [List.all_cons, Bool.and_eq_true] at a1; exact a1.1
+      have h1 : d ≠ '-' := digit_ne hd '-' (Or.inl (by decide))
+      have h2 : d ≠ '+' := digit_ne hd '+' (Or.inl (by decide))
+      split
+      · rename_i r heq; cases heq; exact absurd rfl h1
+      · rename_i r heq; cases heq; exact absurd rfl h2
+      · rw [a3]; rfl
+  | negSucc k =>
+    obtain ⟨a1, a2, a3⟩ := natText_spec (k + 1)
+    show pyInt ('-' :: natText (k + 1)) = _
+    unfold pyInt
+    have hs : stripSpace ('-' :: natText (k + 1)) = '-' :: natText (k + 1) := by
+      apply stripSpace_ends _ '-' (natText (k + 1)) rfl (by decide)
+      intro e es hrev
+      have he : e ∈ ('-' :: natText (k + 1)).reverse := by rw [hrev]; exact List.mem_cons_self
+      rcases List.mem_cons.mp (List.mem_reverse.mp he) with rfl | hm
+      · decide
+      · exact not_space_of_digit (List.all_eq_true.mp a1 e hm)
+    rw [hs]
+    simp only [a3, Option.map_some]
+    rfl
+
+theorem textOk_wireOf (v : Option Val) : textOk v (wireOf v) = true := by
+  cases v with
+  | none => rfl
+  | some v =>
+    cases v with
+    | int n => simp [textOk, wireOf, pyInt_intText]
+    | bool b => cases b <;> decide
+    | str s => simp [textOk, wireOf]
+
+theorem bodyOk_go_bodyOf : ∀ (ev : List Bool) (vals : List (Option Val)) (i : Nat),
+    bodyOk.go i ev vals (bodyOf.go i ev vals) = true := by
+  intro ev
+  induction ev with
+  | nil => intro vals i; simp [bodyOk.go, bodyOf.go]
+  | cons e es ih =>
+    intro vals i
+    cases vals with
+    | nil => simp [bodyOk.go, bodyOf.go]
+    | cons v vs =>
+      unfold bodyOk.go bodyOf.go
+      cases e with
+      | false => simpa using ih vs (i + 1)
+      | true => simp [textOk_wireOf, ih vs (i + 1)]
+
+theorem bodyOk_bodyOf (ev : List Bool) (vals : List (Option Val)) : bodyOk ev vals (bodyOf ev vals) = true :=
+  bodyOk_go_bodyOf ev vals 0
+
 end Upnp.C15
